@@ -12,6 +12,11 @@ COMMON_NOTE = ("Trusted: Coq 8.16.1 kernel (vm_compute used, native_compute not 
                "runtime semantics are modelled as executable Gallina and validated by the correspondence, not verified.")
 
 CLAIMED = {
+    "C20": dict(
+        text="Coq theorems: for ANY value type, every prior stack and every expression tree, evaluating after the expression's postfix code was pushed returns its ordinary arithmetic value and leaves the prior stack unread (induction on the tree, generalised over the stack) — hence independence from every history of earlier, failed or rejected evaluations; the recursive-descent model of the grammar parses both the fully and the minimally parenthesised printing of every tree to exactly that code (precedence, left associativity, unary minus); the validator accepts exactly token lists over numbers and the tables read from the source. Tied by running histories on the real never-reset exprStack (value, pushed symbols, untouched prefix) and the real QcVariableConfig; create_config is exercised on synthetic NetCDF-3 grids (two known findings F16, F17). Partial: pyparsing, float(), xarray and CubicSpline are modelled / only exercised.",
+        design_ref="DESIGN.md §8 C20",
+        technique="Coq proof (compile/evaluate correctness for every prior stack; parser round-trip) + history correspondence",
+    ),
     "C10": dict(
         text="Coq theorems (all lengths, all strictly increasing whole-second axes, all missing patterns, thresholds >= 0): the operational models of rate_of_change_test and speed_test equal the per-point specifications (later point of a pair flagged from |dx| / elapsed whole seconds; first point GOOD resp. UNKNOWN; equality does not flag; length mismatch rejected); speed_test for EVERY geodesic function (geographiclib is an oracle). Tied by correspondence on irregular axes, exact-on-threshold rates and asymmetric tracks with distances computed by geographiclib directly. Partial: geographiclib and numpy timedelta casts are modelled, not verified.",
         design_ref="DESIGN.md §8 C10",
